@@ -153,13 +153,21 @@ func execRoundTrip(c rtCase) *evid.Failure {
 	}
 	// (f) pooled API, fresh and recycled
 	p := pool.New(4, 1024)
-	for round := 0; round < 2; round++ {
+	for round := 0; round < 3; round++ {
 		pm := p.AcquireMessage(context.Background())
 		pm.SetCode(lm.Code)
 		pm.SetToken(lm.Token)
-		pm.ResetOptionsTo(lm.Options)
+		if round < 2 {
+			pm.ResetOptionsTo(lm.Options)
+		} else {
+			// the options are added one by one, as an application builds a request (the message keeps
+			// the values in a buffer of its own, which it has to grow for the longer ones)
+			for _, o := range lm.Options {
+				pm.AddOptionBytes(o.ID, o.Value)
+			}
+		}
 		if len(lm.Payload) > 0 {
-			if round == 0 {
+			if round != 1 {
 				pm.SetBody(bytes.NewReader(lm.Payload))
 			} else {
 				// a body that is streamed: io.Reader allows a Read to return fewer bytes than asked for
@@ -374,7 +382,7 @@ func TestCheck(t *testing.T) {
 		return f
 	})
 	r.Main(evid.Meta{
-		Rule:        "rapid-generated well-formed messages (token 0-8, all codes, type/MID, sorted option multisets over registry and unknown numbers hitting every delta/length extension class, payloads aimed at the stream Len class boundaries) through Size/Encode/Decode of both coders and the pooled API; oracles: size-in-advance, byte-exact differential against an independent canonical encoder, decode round-trip, ErrTooSmall with untouched canary beyond the buffer; negative engine: oversized token, type outside 0-3, MID outside 0-65535 must be refused. Non-trivial = uses an extended (>=13) delta/length/Len class (round-trip engines) or any negative case; distinct by encoded bytes / by invalid field value",
+		Rule:        "rapid-generated well-formed messages (token 0-8, all codes, type/MID, sorted option multisets over registry and unknown numbers hitting every delta/length extension class, payloads aimed at the stream Len class boundaries) through Size/Encode/Decode of both coders and the pooled API (fresh and recycled messages; options set at once or added one by one; bodies read in one piece or in short reads); oracles: size-in-advance, byte-exact differential against an independent canonical encoder, decode round-trip, ErrTooSmall with untouched canary beyond the buffer; negative engine: oversized token, type outside 0-3, MID outside 0-65535 must be refused. Non-trivial = uses an extended (>=13) delta/length/Len class (round-trip engines) or any negative case; distinct by encoded bytes / by invalid field value",
 		Assumptions: []string{"refcodec's canonical encoder transcribes RFC 7252 section 3 / RFC 8323 section 3 correctly (cross-checked against the repository's byte vectors in refcodec tests)", "inputs outside the stated preconditions other than token length, type and MID (code > 255, option value > 65804 bytes, unsorted options) are not asserted on"},
 		Floor:       500,
 	}, rtEngine("roundtrip-udp", false, r), rtEngine("roundtrip-tcp", true, r), neg)
